@@ -14,7 +14,7 @@ use serde_json::json;
 
 pub fn run(ctx: &Ctx) -> i32 {
     let mon = Mon::new();
-    let n = ctx.tier.pick(160, 2400);
+    let n = ctx.tier.pick(160, 1000);
     par_cases(ctx, &mon, "hist", n, |cc, rng, l| {
         let hot = cc.idx % 3 == 0;
         let mut case = HistCase::random(rng, ctx.tier.pick(14, 28), ctx.tier.pick(6, 10), 4, hot);
@@ -22,7 +22,7 @@ pub fn run(ctx: &Ctx) -> i32 {
         case.par = AzksParallelismConfig::disabled();
         with_cfg!(case.cfg, TC, { block_on(run_honest_tree::<TC>(cc, &case, rng, l)) })
     });
-    let d = ctx.tier.pick(96, 1200);
+    let d = ctx.tier.pick(96, 800);
     par_cases(ctx, &mon, "dishonest", d, |cc, rng, l| {
         let cfg = if rng.chance(1, 2) { Cfg::Wa } else { Cfg::Exp };
         with_cfg!(cfg, TC, { block_on(run_dishonest_tree::<TC>(cc, rng, l)) })
@@ -34,10 +34,10 @@ pub fn run(ctx: &Ctx) -> i32 {
             "exploration",
             "honest generated histories; the adversarial prover assembles history proofs from real nodes: H1 newest k versions dropped with future-marker absence forged from every ancestor, H2 oldest dropped / fewer than N, H3 gaps/duplicates/reorderings and interior rewrites that keep the length and both end points (H3c), H4 wrong value/epoch/nonce, H5 marker proofs omitted/added/swapped/transplanted, H6 previous-version proof missing/other version, H7 tombstones under both verifier modes incl. re-dated tombstoned entries; oracle: key_history_verify Ok(list) => list == model list for that parameter (values may be empty only under AllowMissingValues). H8: dishonest trees (stale marker omitted or added k epochs late, versions 2..9): verification of any history covering the affected update must fail. distinct = (class, params kind, total versions class, position); all cases adversarial",
         )
-        .need("honest_accepted", ctx.tier.pick(300, 5000))
-        .need("candidates", ctx.tier.pick(10000, 200000))
-        .need("H1_candidates", ctx.tier.pick(1000, 20000))
-        .need("H8_dishonest_histories_judged", ctx.tier.pick(100, 1500)),
+        .need("honest_accepted", ctx.tier.pick(300, 2000))
+        .need("candidates", ctx.tier.pick(10000, 100000))
+        .need("H1_candidates", ctx.tier.pick(1000, 10000))
+        .need("H8_dishonest_histories_judged", ctx.tier.pick(100, 1000)),
     )
 }
 
